@@ -6,6 +6,7 @@ import (
 
 	"github.com/openziti/storage/objectz"
 	"go.etcd.io/bbolt"
+	"sync"
 	"verif/harness/internal/core"
 	"verif/harness/internal/qx"
 )
@@ -50,7 +51,7 @@ func init() {
 		ID:    "C19",
 		Level: "exploration",
 		Rule: "collections of 0-12 objects whose five scalar kinds (string, int64, float64, bool, datetime; pointer-valued so null is expressible) mirror the scalar fields of a bolt store holding the same values; the collection is iterated in a fresh random order for every query. " +
-			"Filters over non-set symbols (all operators, = null / != null, and/or/not) x sort specifications of 0-5 fields (each followed by its direction-flipped twin and a repeat on the same store instance; plus 6-8 field sorts compared between the two stores only) x the complete 10 x 10 skip/limit boundary grid. Three-way comparison: ObjectStore.QueryEntities (ids in order, count) vs bolt QueryIds vs the reference evaluator + sort/page oracle, " +
+			"Filters over non-set symbols (all operators, = null / != null, and/or/not) x sort specifications of 0-5 fields (each followed by its direction-flipped twin and a repeat on the same store instance; plus 6-8 field sorts compared between the two stores only) x the complete 10 x 10 skip/limit boundary grid. Queries answered sequentially are re-run from six goroutines at once on the same store and must get the same answers. Three-way comparison: ObjectStore.QueryEntities (ids in order, count) vs bolt QueryIds vs the reference evaluator + sort/page oracle, " +
 			"so a defect common to both copies of the paging code is still seen. non-trivial = distinct (query, dataset) whose page is a proper non-empty sub-sequence or a boundary point",
 		Assumptions: []string{"only scalar symbols (the object store has no set symbols)", "bare bool symbols holding null and icontains over non-ASCII are executed but not judged"},
 		Plan: func(tier core.Tier, seed int64) int {
@@ -76,7 +77,10 @@ func newC19Store(w *qx.World, r *core.Rand) *objectz.ObjectStore[*c19Obj] {
 		objs = append(objs, &c19Obj{id: id, s: ptr[string](v["s"]), ism: ptr[int64](v["ism"]), ibig: ptr[int64](v["ibig"]), flt: ptr[float64](v["flt"]), b: ptr[bool](v["b"]),
 			t: ptr[time.Time](v["t"]), grp: ptr[string](v["grp"]), owner: ptr[string](v["owner"]), uk: ptr[string](v["uk"])})
 	}
+	var shuffleMu sync.Mutex // the generator is shared; queries may come from several goroutines
 	os := objectz.NewObjectStore(func() objectz.ObjectIterator[*c19Obj] {
+		shuffleMu.Lock()
+		defer shuffleMu.Unlock()
 		return &sliceIter{objs: core.Shuffle(r, objs)}
 	})
 	os.AddStringSymbol("id", func(o *c19Obj) *string { return &o.id })
@@ -92,6 +96,45 @@ func newC19Store(w *qx.World, r *core.Rand) *objectz.ObjectStore[*c19Obj] {
 	return os
 }
 
+type c19Replay struct {
+	text  string
+	ids   []string
+	count int64
+}
+
+// c19Concurrent re-runs queries whose answers are known from several goroutines at once on the same object store:
+// every goroutine must get the answer the query got when it ran alone.
+func c19Concurrent(c *core.Ctx, os *objectz.ObjectStore[*c19Obj], replay []c19Replay) {
+	if len(replay) < 4 {
+		return
+	}
+	var wg sync.WaitGroup
+	for g := 0; g < 6; g++ {
+		wg.Add(1)
+		go func(g int) {
+			defer wg.Done()
+			for round := 0; round < 3; round++ {
+				for i := range replay {
+					q := replay[(i*7+g*5+round)%len(replay)]
+					ents, n, err := os.QueryEntities(q.text)
+					c.Eval()
+					c.Count("concurrent_object_store_queries", 1)
+					var ids []string
+					for _, e := range ents {
+						ids = append(ids, e.id)
+					}
+					if err != nil || !sameIds(ids, q.ids) || n != q.count {
+						c.Violationf("C19 object store answers differently when queried from several goroutines", map[string]any{"query": q.text},
+							"query %q: got %q count %d err=%v, alone it returned %q count %d", q.text, ids, n, err, q.ids, q.count)
+						return
+					}
+				}
+			}
+		}(g)
+	}
+	wg.Wait()
+}
+
 func runC19(c *core.Ctx, idx int) {
 	r := c.Rand()
 	env, err := newQEnv(c, r, 12, idx%2 == 0)
@@ -103,6 +146,8 @@ func runC19(c *core.Ctx, idx int) {
 	st := env.sc.St(qx.Things)
 	os := newC19Store(env.w, r)
 
+	var replay []c19Replay
+	defer func() { c19Concurrent(c, os, replay) }()
 	g := &qx.Gen{R: r, W: env.w, Store: qx.Things, ScalarOnly: true}
 	wd := worldDigest(env.w)
 	_ = env.db.View(func(tx *bbolt.Tx) error {
@@ -185,6 +230,9 @@ func runC19(c *core.Ctx, idx int) {
 						}
 						if oerr != nil {
 							continue
+						}
+						if len(replay) < 40 && (len(replay) == 0 || replay[len(replay)-1].text != text) {
+							replay = append(replay, c19Replay{text: text, ids: append([]string{}, oids...), count: ocount})
 						}
 						if !sameIds(oids, bids) || ocount != bcount {
 							c.Violationf("C19 object store differs from the bolt store: "+gridKey, info, "query %q: object store %q count %d, bolt %q count %d", text, oids, ocount, bids, bcount)
